@@ -4,7 +4,11 @@ set -u
 patch="$1"; shift
 cd /repo || exit 2
 if git status --short | grep -qv '^??'; then echo "repo dirty"; exit 2; fi
-if ! git apply --3way "$patch" >/dev/null 2>&1; then echo "PATCH DOES NOT APPLY: $patch"; git reset -q --hard HEAD; exit 3; fi
+if ! git apply "$patch" >/dev/null 2>&1; then
+  git reset -q --hard HEAD
+  if ! patch -p1 -F3 -s --no-backup-if-mismatch < "$patch" >/dev/null 2>&1; then echo "PATCH DOES NOT APPLY: $patch"; git reset -q --hard HEAD; git clean -fdq; exit 3; fi
+  find . -name '*.orig' -delete; find . -name '*.rej' -delete
+fi
 export GOFLAGS=-mod=mod GOPROXY=off
 if ! go build ./... 2>/dev/null; then echo "PATCH DOES NOT BUILD: $patch"; git reset -q --hard HEAD; exit 3; fi
 cd /verif
@@ -12,4 +16,4 @@ for p in "$@"; do
   out=$(timeout 1800 ./check "$p" --tier ${TIER:-quick} --seed ${VERIF_SEED:-1} 2>&1); rc=$?
   echo "$p rc=$rc $(echo "$out" | grep -m2 -e VIOLATION -e '^  what' -e '^OK' -e INFRA | tr '\n' ' ' | cut -c1-300)"
 done
-git -C /repo reset -q --hard HEAD
+git -C /repo reset -q --hard HEAD; git -C /repo clean -fdq
